@@ -52,7 +52,7 @@ func c08StoreRace(c *Ctx) {
 			for j := range posCh {
 				<-j.gate
 				now := time.Now()
-				mc.Store(j.key, now, now.Add(time.Hour), pos, false)
+				mcStore(mc, j.key, now, now.Add(time.Hour), pos, false)
 				j.done.Done()
 			}
 		}()
@@ -61,7 +61,7 @@ func c08StoreRace(c *Ctx) {
 			for j := range negCh {
 				<-j.gate
 				now := time.Now()
-				mc.Store(j.key, now, now.Add(30*time.Second), neg, true)
+				mcStore(mc, j.key, now, now.Add(30*time.Second), neg, true)
 				j.done.Done()
 			}
 		}()
